@@ -29,7 +29,7 @@ structure PathPre (g : Graph) (cap init : ℚ) : Prop where
 /-- one iteration of `add_routes_better` -/
 def greedyStep (cap init : ℚ) (pick : ℕ → List ℕ → ℕ) (s : PathInst × List ℕ × List (List ℕ) × ℕ) :
     PathInst × List ℕ × List (List ℕ) × ℕ :=
-  let gr := genRoute s.1.g cap pick (2 + s.1.g.nodes.length) 0 0 0 init s.2.1 [0] s.2.2.2
+  let gr := genRoute s.1.g cap pick (2 + s.1.g.nodes.length) 0 0 (s.1.g.lo 0) init s.2.1 [0] s.2.2.2
   let a := s.1.addRoute (gr.1.map Stop.idx)
   match a.2 with
   | .ok (true, _) => (a.1, s.2.1.filter (fun n => n = 0 ∨ n ∉ gr.1), s.2.2.1 ++ [gr.1], gr.2)
@@ -146,7 +146,7 @@ theorem greedyStep_inv (P : PathInst) (hg : C15.Inv P.g) (cap init : ℚ) (pick 
   obtain ⟨h1, h2, h3, h4⟩ := h
   simp only at h1 h2 h3 h4
   have hgQ : C15.Inv Q.g := by rw [h1]; exact hg
-  have hmem := genRoute_mem Q.g cap pick hpick unv (2 + Q.g.nodes.length) 0 0 0 init [0] c (by simp)
+  have hmem := genRoute_mem Q.g cap pick hpick unv (2 + Q.g.nodes.length) 0 0 (Q.g.lo 0) init [0] c (by simp)
   unfold greedyStep
   simp only
   split
@@ -427,7 +427,7 @@ theorem dummy_valid (G : Graph) (cap init : ℚ) (N u : ℕ) (L : ℚ) (a1 a2 a3
     (h1 : G.arc? 0 N = some a1) (ht1 : a1.time = 0) (h2 : G.arc? N u = some a2) (ht2 : a2.time = 0)
     (h3 : G.arc? u 0 = some a3) (hloN : G.lo N = 0) (hhiN : G.hi N = none) (hdN : G.demand N = -L)
     (hwu : leE (G.lo u) (G.hi u) = true) (h0u : leE 0 (G.hi u) = true) (hhi0 : G.hi 0 = none)
-    (hd0 : G.demand 0 = 0) (b1 : 0 ≤ init + L) (b2 : init + L ≤ cap) (b3 : 0 ≤ init + L - G.demand u)
+    (hd0 : G.demand 0 = 0) (hlo0 : G.lo 0 ≤ 0) (b1 : 0 ≤ init + L) (b2 : init + L ≤ cap) (b3 : 0 ≤ init + L - G.demand u)
     (b4 : init + L - G.demand u ≤ cap) : C06.ValidRoute G cap init [0, N, u, 0] := by
   refine ⟨by simp, rfl, rfl, ?_, ?_⟩
   · have : [0, N, u, 0].dropLast = [0, N, u] := rfl
@@ -435,8 +435,8 @@ theorem dummy_valid (G : Graph) (cap init : ℚ) (N u : ℕ) (L : ℚ) (a1 a2 a3
     simp only [List.nodup_cons, List.mem_cons, List.not_mem_nil, or_false, not_or, List.nodup_nil, and_true,
       not_false_eq_true]
     omega
-  · show (C06.follow G cap 0 [N, u, 0] 0 init 0).isSome = true
-    have e1 : maxR (0 + a1.time) (G.lo N) = 0 := by rw [ht1, hloN]; simp [maxR]
+  · show (C06.follow G cap 0 [N, u, 0] (G.lo 0) init 0).isSome = true
+    have e1 : maxR (G.lo 0 + a1.time) (G.lo N) = 0 := by rw [ht1, hloN]; simp [maxR, hlo0]
     rw [follow_step h1 (by rw [hhiN]; rfl) (by rw [hdN]; linarith) (by rw [hdN]; linarith), e1]
     have e2 : leE (maxR (0 + a2.time) (G.lo u)) (G.hi u) = true := by
       rw [ht2]
@@ -463,11 +463,12 @@ theorem dummyG4_valid (cap init high : ℚ) (g : Graph) (u : ℕ) (hg : C15.Inv 
   obtain ⟨d1, d2⟩ := hpre.custDemand u hu1 hu
   obtain ⟨b1, b2, b3, b4, _, _⟩ := dummyLoad_bounds cap init (g.demand u) hpre.init0 hpre.initc d1 d2
   refine dummy_valid _ cap init _ u (dummyLoad cap init (g.demand u)) a1 a2 a3 hu1 hu x1 x2 x3 x4 x5
-    (Graph.lo_append_new h4n) (Graph.hi_append_new h4n) (Graph.demand_append_new h4n) ?_ ?_ ?_ ?_ b1 b2 ?_ ?_
+    (Graph.lo_append_new h4n) (Graph.hi_append_new h4n) (Graph.demand_append_new h4n) ?_ ?_ ?_ ?_ ?_ b1 b2 ?_ ?_
   · rw [Graph.lo_append_old h4n hu, Graph.hi_append_old h4n hu]; exact inv_window g hg u hu
   · rw [Graph.hi_append_old h4n hu]; exact hpre.custHi u hu1 hu
   · rw [Graph.hi_append_old h4n (by omega)]; exact hpre.depotHi
   · rw [Graph.demand_append_old h4n (by omega)]; exact hpre.depotDemand
+  · rw [Graph.lo_append_old h4n (by omega)]; exact hpre.depotLo
   · rw [Graph.demand_append_old h4n hu]; exact b3
   · rw [Graph.demand_append_old h4n hu]; exact b4
 
